@@ -284,7 +284,7 @@ def main(tier):
     for w in results:
         chk.merge_worker(w)
     for c in chk.candidates:
-        ok, dev = replay(chk, h, c)
+        ok, dev = safe_replay(replay, chk, h, c)
         if ok:
             chk.report(c['key'], '%s; native deviation %.3g' % (c['what'], dev), c)
         else:
